@@ -158,7 +158,7 @@ def t_rollout_loop(n, include_init, takes_aux, constant_aux, seed, aux_lead_n=Fa
     u0 = jnp.asarray(rng.integers(-9, 10, size=(2, w)), dtype=jnp.int64)
     if takes_aux:
         aux = jnp.asarray(rng.integers(-9, 10, size=(w,) if constant_aux else (n, w)), dtype=jnp.int64)
-        f = lambda u, x: a * u + x
+        f = lambda u, x: a * u + x[::-1] + x.ndim        # not invariant under an extra leading axis of the aux (a step must see aux[i], not aux[i:i+1])
         got = ex.rollout(f, n, include_init=include_init, takes_aux=True, constant_aux=constant_aux)(u0, aux)
         last = ex.repeat(f, n, takes_aux=True, constant_aux=constant_aux)(u0, aux)
     else:
@@ -281,7 +281,22 @@ def t_repeated(name, D, N, order, n, seed):
     if abs(r.dt - n * s.dt) > 1e-15 * n:
         return False, f"effective dt {r.dt} != n*dt"
     ok = core.close(got, np.asarray(exp), 1e-10)
-    return ok, "" if ok else f"RepeatedStepper differs from {n} manual steps by {np.max(np.abs(got-np.asarray(exp))):.3e}"
+    if not ok:
+        return ok, f"RepeatedStepper differs from {n} manual steps by {np.max(np.abs(got-np.asarray(exp))):.3e}"
+    # nested wrappers: m x n applications, effective dt m n dt; the forced wrapper around it injects m n dt f
+    m = 2 if n != 2 else 3
+    rr = ex.RepeatedStepper(r, m)
+    exp2 = u
+    for _ in range(m * n):
+        exp2 = s(exp2)
+    if abs(rr.dt - m * n * s.dt) > 1e-15 * m * n or abs(rr.dt - r.dt * m) > 1e-15 * m * n:
+        return False, f"nested RepeatedStepper: effective dt {rr.dt}, expected {m * n * s.dt}"
+    if not core.close(np.asarray(rr(u)), np.asarray(exp2), 1e-10):
+        return False, f"nested RepeatedStepper differs from {m * n} manual steps"
+    f = _state(D, N, s.num_channels, seed + 5, nyquist_free=name in ODD_ORDER_LINEAR)
+    if not core.close(np.asarray(ex.ForcedStepper(rr)(u, f)), np.asarray(rr(u + rr.dt * f)), 1e-10):
+        return False, "ForcedStepper around a nested RepeatedStepper does not inject dt_effective * f"
+    return True, ""
 
 
 def t_forced(name, D, N, order, seed):
